@@ -56,6 +56,7 @@ func (Labeler) After(x *Exec, op *Op, res *Res) {
 	if x.ShareOps == nil {
 		x.ShareOps = map[string]int{}
 		x.MaxShareTotal = map[string]*big.Rat{}
+		x.MaxTotal = map[string]*big.Rat{}
 	}
 	if (op.K == KUndelegate || op.K == KRedelegate) && res.OK {
 		x.ShareOps[op.Denom]++
@@ -65,11 +66,42 @@ func (Labeler) After(x *Exec, op *Op, res *Res) {
 			if v := ratAbs(decRat(s.Assets[dn].TotalValidatorShares)); x.MaxShareTotal[dn] == nil || v.Cmp(x.MaxShareTotal[dn]) > 0 {
 				x.MaxShareTotal[dn] = v
 			}
+			if v := intRat(s.Assets[dn].TotalTokens); x.MaxTotal[dn] == nil || v.Cmp(x.MaxTotal[dn]) > 0 {
+				x.MaxTotal[dn] = v
+			}
 		}
+	}
+	// an asset that has shrunk by 15 orders of magnitude without passing through a reset lives on
+	// the rounding dust of its former size (18-digit ratios of the big totals left remainders that
+	// are now comparable to the whole asset): the over-reporting regime of the listed finding
+	// F-C04a, at small absolute size
+	for _, dn := range post.AssetOrder {
+		t := post.Assets[dn].TotalTokens
+		if m := x.MaxTotal[dn]; m != nil && t.IsPositive() && !x.OverdrawnSeen[dn] {
+			if new(big.Rat).Mul(intRat(t), new(big.Rat).SetInt(pow10(15))).Cmp(m) <= 0 {
+				x.OverdrawnSeen[dn] = true
+				x.Label("asset-shrunk-to-the-dust-of-its-former-size")
+			}
+		}
+	}
+	// an aborted slash callback (listed findings F-C08b / F-C05a / F-C04a) leaves the slash
+	// half-applied — asset totals reduced, validator records not, or the other way round: the
+	// accounting of the slashed validator's assets is not judged afterwards
+	if (op.K == KSlash || op.K == KSlashHook) && x.L.LastSlashHookErr != "" {
+		for _, dn := range sortedKeys(pre.Vals[op.V].ValShares) {
+			x.OverdrawnSeen[dn] = true
+		}
+		for _, r := range x.L.Redel {
+			if r.S == op.V {
+				x.OverdrawnSeen[r.Denom] = true
+			}
+		}
+		x.Label("slash-callback-aborted:accounting-not-judged")
 	}
 	for dn := range x.MaxShareTotal {
 		if a, ok := post.Assets[dn]; !ok || (a.TotalTokens.IsZero() && a.TotalValidatorShares.IsZero()) {
 			delete(x.MaxShareTotal, dn)
+			delete(x.MaxTotal, dn)
 			delete(x.ShareOps, dn)
 		}
 	}
